@@ -1,3 +1,4 @@
+from copy import copy
 import inspect
 import keyword
 from typing import Any, cast, Dict, List, Tuple, Type, Union
@@ -113,7 +114,13 @@ class ObjectMeta(type, Element):
         cls: ObjectMeta = cast(
             ObjectMeta, type.__new__(mcs, name, bases, dict(classdict))
         )
-        previous = lambda attr, default: getattr(cls, attr, default)
+
+        def previous(attr, default):
+            # Inherited containers are copied, so that editing them on the
+            # subclass does not edit the base class.
+            value = getattr(cls, attr, default)
+            return copy(value) if isinstance(value, (list, dict)) else value
+
         get_value = (
             lambda value, attr: value
             if not isinstance(value, NotPassed)
